@@ -13,7 +13,7 @@ PROPS = "Walk/Props_C01.v"
 COQ_FILES = wc.COQ_FILES + ["Walk/Invariant.v", "Walk/FaultProofs.v", "Walk/ConfineProofs.v", "Walk/ContainProofs.v",
                             "Walk/SubdirProofs.v", "Walk/LimitProofs.v", "Walk/PathsProofs.v", "Walk/Props_C01.v"]
 THEOREMS = ["walk_calls_exact", "walk_inventory_exact", "walk_status_exact", "subdir_request_equiv",
-            "requested_file_direct", "requested_paths_independent"]
+            "requested_file_direct", "requested_paths_independent", "requested_paths_exact"]
 
 META = {
     "technique": "Coq proof over all trees (nested induction: walk = execution of a pure schedule of handleFile calls; "
@@ -24,7 +24,7 @@ META = {
                   "are exactly the declaratively specified ones, without duplicates (walk_calls_exact), the inventory is the "
                   "attributed concatenation of what those calls returned (walk_inventory_exact), plugin statuses follow the calls "
                   "(walk_status_exact), an explicitly requested reachable sub-directory yields the whole-tree scan restricted to it "
-                  "(subdir_request_equiv), an explicitly requested file is dispatched iff required (requested_file_direct), a request for several paths is the concatenation of the single-path requests (requested_paths_independent). "
+                  "(subdir_request_equiv), an explicitly requested file is dispatched iff required (requested_file_direct), a request for several paths is the concatenation of the single-path requests (requested_paths_independent), and in general -- files and directories mixed, missing paths, cut-off on or off -- the calls of a request are exactly the specified ones (requested_paths_exact). "
                   "No domain restriction is left: the two former refutations (regex+glob both set; .gitignore in the scan root) were "
                   "repaired in /repo (commits c6e92489, 9b0c17fd, 47f6ad08); their witnesses are in the regression corpus that runs first. "
                   "Several roots: the calls of one Run are the concatenation of what each root owes (oracle; FileRequired may consult api.Stat()). "
